@@ -30,19 +30,33 @@ inductive LPc where
   | done (r : Option Err)
 deriving DecidableEq, Repr
 
+/-- Which entry point the caller used.  `ReplicateSingle` and `ReplicateComposite`
+(concurrency_limiting_blob_replicator.go:37-58) both call `br.ReplicateMultiple` of the
+(parent) digest - so they take a permit exactly like `multi` - and then read the sink, turning
+NOT_FOUND into INTERNAL. -/
+inductive LKind where
+  | multi
+  | single
+  | composite
+deriving DecidableEq, Repr
+
 structure LCaller where
   keys : List Key
   cancelled : Bool
   pc : LPc
+  kind : LKind := .multi
 deriving Repr
 
 structure LState where
   cap : Nat
   held : Nat := 0
   callers : List LCaller := []
+  sink : Key → Bool := fun _ => false   -- what the sink holds (only read by single / composite)
 
 inductive LAct where
   | call (keys : List Key) (cancelled : Bool)
+  | callRead (kind : LKind) (key : Key) (cancelled : Bool)   -- ReplicateSingle / ReplicateComposite
+  | baseCopied (i : Nat)           -- base returned nil after copying its digests into the sink
   | cancel (i : Nat)
   | acquire (i : Nat)
   | abort (i : Nat)
@@ -59,8 +73,24 @@ def LPc.isInBase : LPc → Bool
   | .inBase => true
   | _ => false
 
+/-- What the caller finally returns once the permit is back. -/
+def LCaller.final (c : LCaller) (sink : Key → Bool) (r : Option Err) : Option Err :=
+  match r, c.kind with
+  | some e, _ => some e
+  | none, .multi => none
+  | none, _ => if c.keys.all sink then none else some ⟨internal, 0⟩
+
 def lstep (s : LState) : LAct → Option LState
-  | .call ks cn => some { s with callers := s.callers ++ [⟨ks, cn, .waiting⟩] }
+  | .call ks cn => some { s with callers := s.callers ++ [⟨ks, cn, .waiting, .multi⟩] }
+  | .callRead kind k cn => some { s with callers := s.callers ++ [⟨[k], cn, .waiting, kind⟩] }
+  | .baseCopied i =>
+    match s.callers[i]? with
+    | some c =>
+      match c.pc with
+      | .inBase => some { s with callers := s.callers.set i { c with pc := .afterBase none }
+                                 sink := fun k => c.keys.contains k || s.sink k }
+      | _ => none
+    | none => none
   | .cancel i =>
     match s.callers[i]? with
     | some c => some { s with callers := s.callers.set i { c with cancelled := true } }
@@ -96,7 +126,7 @@ def lstep (s : LState) : LAct → Option LState
     | some c =>
       match c.pc with
       | .afterBase r =>
-        some { s with held := s.held - 1, callers := s.callers.set i { c with pc := .done r } }
+        some { s with held := s.held - 1, callers := s.callers.set i { c with pc := .done (c.final s.sink r) } }
       | _ => none
     | none => none
 
